@@ -1,11 +1,255 @@
 (* Property C11 — plugin tiers combine votes and orderings exactly as specified.
    Property theorems only; each is closed by [exact] of a lemma proved in
    C11/Lemmas.v or C11/HeapLemmas.v and followed by its assumptions. *)
-From Coq Require Import ZArith List Bool.
-From V Require Import C11.Model C11.Spec C11.Lemmas.
+From Coq Require Import ZArith List Bool Permutation.
+From V Require Import C11.Model C11.Spec C11.HeapModel C11.Lemmas C11.HeapLemmas.
 Import ListNotations.
 Open Scope Z_scope.
 
+(* ---- victim selection (Reclaimable / Preemptable / UnifiedEvictable, after the fix) ---- *)
+
+(* for EVERY tier layout and every combination of answers: the result is the
+   intersection of the candidate lists of all enabled, registered, non-abstaining
+   plugins of the first tier whose intersection is non-empty; [] if none *)
 Theorem C11_tier_victims_spec : forall ts, victims_fixed ts = victims_spec ts.
 Proof. exact tier_victims_spec. Qed.
 Print Assumptions C11_tier_victims_spec.
+
+(* no returned victim was rejected by a voting plugin of the deciding tier, and
+   the deciding tier is the first tier with a non-empty agreement *)
+Theorem C11_victims_respect_deciding_tier : forall ts x,
+  In x (victims_fixed ts) ->
+  exists pre t post,
+    ts = pre ++ t :: post /\
+    Forall (fun t' => agreement t' = []) pre /\
+    victims_fixed ts = agreement t /\
+    (exists p, In p t /\ voting p = true) /\
+    forall p, In p t -> voting p = true -> In x (v_cands (s_ans p)).
+Proof. exact victims_respect_deciding_tier. Qed.
+Print Assumptions C11_victims_respect_deciding_tier.
+
+Theorem C11_in_agreement : forall x t,
+  In x (agreement t) <->
+  (exists p, In p t /\ voting p = true) /\
+  forall p, In p t -> voting p = true -> In x (v_cands (s_ans p)).
+Proof. exact in_agreement. Qed.
+Print Assumptions C11_in_agreement.
+
+(* the record of defect F1: the loop as it was before the fix violates the
+   specification (voters {1},{2},{3} of one tier -> [3]) *)
+Theorem C11_victims_prefix_refuted :
+  exists ts, victims_prefix ts <> victims_spec ts /\
+             exists x t p, In x (victims_prefix ts) /\ In t ts /\ In p t /\
+                           voting p = true /\ ~ In x (v_cands (s_ans p)).
+Proof. exact victims_prefix_refuted. Qed.
+Print Assumptions C11_victims_prefix_refuted.
+
+(* ---- boolean gates ---- *)
+
+(* JobReady / Allocatable / Preemptive / SubJobReady: conjunction over all
+   enabled registered plugins of all tiers *)
+Theorem C11_gate_conjunction : forall ts,
+  all_tiers ts = true <->
+  forall t p, In t ts -> In p t -> active p = true -> s_ans p = true.
+Proof. exact gate_conjunction_iff. Qed.
+Print Assumptions C11_gate_conjunction.
+
+(* Overused: disjunction *)
+Theorem C11_gate_disjunction : forall ts,
+  any_tiers ts = true <->
+  exists t p, In t ts /\ In p t /\ active p = true /\ s_ans p = true.
+Proof. exact gate_disjunction_iff. Qed.
+Print Assumptions C11_gate_disjunction.
+
+Theorem C11_sub_job_ready : forall hp jts sts,
+  sub_job_ready hp jts sts = forallb idb (actives (if hp then sts else jts)).
+Proof. exact sub_job_ready_spec. Qed.
+Print Assumptions C11_sub_job_ready.
+
+(* JobStarving: conjunction over the FIRST tier that has an enabled registered
+   function, false if no tier has one *)
+Theorem C11_job_starving : forall ts,
+  job_starving ts =
+  match find (existsb active) ts with
+  | None => false
+  | Some t => forallb idb (map s_ans (filter active t))
+  end.
+Proof. exact job_starving_spec. Qed.
+Print Assumptions C11_job_starving.
+
+(* JobValid: the first failing result in tier order; PredicateFn: the first error *)
+Theorem C11_job_valid : forall ts, job_valid ts = hd_error (fails ts).
+Proof. exact job_valid_spec. Qed.
+Print Assumptions C11_job_valid.
+
+Theorem C11_predicate : forall ts, predicate ts = hd_error (somes (actives ts)).
+Proof. exact predicate_spec. Qed.
+Print Assumptions C11_predicate.
+
+(* ---- permit / reject votes (JobPipelined / JobEnqueueable / SubJobPipelined) ---- *)
+Theorem C11_vote_first_permit_unless_reject : forall ts,
+  vote_tiers ts = false <->
+  exists pre t post,
+    ts = pre ++ t :: post /\
+    (forall t' p, In t' pre -> In p t' -> active p = true -> s_ans p <= 0) /\
+    (exists p, In p t /\ active p = true /\ s_ans p < 0).
+Proof. exact vote_first_permit_unless_reject. Qed.
+Print Assumptions C11_vote_first_permit_unless_reject.
+
+Theorem C11_sub_job_pipelined : forall hp jts sts,
+  sub_job_pipelined hp jts sts = vote_tiers (if hp then sts else jts).
+Proof. exact sub_job_pipelined_spec. Qed.
+Print Assumptions C11_sub_job_pipelined.
+
+(* ---- orderings ---- *)
+
+(* the tier walk answers with the first non-zero comparison of the enabled
+   registered comparators in tier order *)
+Theorem C11_first_distinguishing : forall (T : Type) (ts : layout (T -> T -> Z)) l r,
+  cmp_tiers ts l r = lex (actives ts) l r.
+Proof. exact @cmp_tiers_first_distinguishing. Qed.
+Print Assumptions C11_first_distinguishing.
+
+Theorem C11_lex_decided_by : forall (T : Type) (cs : list (T -> T -> Z)) l r j,
+  lex cs l r = j -> j <> 0 ->
+  exists pre c post, cs = pre ++ c :: post /\ Forall (fun c' => c' l r = 0) pre /\ c l r = j.
+Proof. exact @lex_decided_by. Qed.
+Print Assumptions C11_lex_decided_by.
+
+(* for every set of items, every layout of comparators that are valid on the
+   set and every tie-break that is a strict weak order on it, the session
+   order function is a strict weak order on the set (asymmetric and negatively
+   transitive; irreflexivity and transitivity follow, next two theorems) *)
+Theorem C11_lex_order_strict_weak :
+  forall (T : Type) (dom : T -> Prop) (ts : layout (T -> T -> Z)) (tb : T -> T -> bool),
+  all_valid dom ts -> swo_on dom tb -> swo_on dom (order_fn ts tb).
+Proof. exact @lex_order_strict_weak. Qed.
+Print Assumptions C11_lex_order_strict_weak.
+
+Theorem C11_swo_irrefl : forall (T : Type) (dom : T -> Prop) lt,
+  swo_on dom lt -> forall a, dom a -> lt a a = false.
+Proof. exact @swo_irrefl. Qed.
+Print Assumptions C11_swo_irrefl.
+
+Theorem C11_swo_trans : forall (T : Type) (dom : T -> Prop) lt,
+  swo_on dom lt -> forall a b d, dom a -> dom b -> dom d ->
+  lt a b = true -> lt b d = true -> lt a d = true.
+Proof. exact @swo_trans. Qed.
+Print Assumptions C11_swo_trans.
+
+(* where the tie-break orders two items one way or the other, so does the
+   session order: with creation time + UID it is total on distinct UIDs *)
+Theorem C11_order_fn_flip :
+  forall (T : Type) (dom : T -> Prop) (ts : layout (T -> T -> Z)) (tb : T -> T -> bool),
+  all_valid dom ts -> forall a b, dom a -> dom b ->
+  tb a b = negb (tb b a) -> order_fn ts tb a b = negb (order_fn ts tb b a).
+Proof. exact @order_fn_flip. Qed.
+Print Assumptions C11_order_fn_flip.
+
+(* the built-in tie-breaks *)
+Theorem C11_by_time_uid_swo : swo_on (fun _ => True) by_time_uid.
+Proof. exact by_time_uid_swo. Qed.
+Print Assumptions C11_by_time_uid_swo.
+
+Theorem C11_by_time_uid_total : forall a b,
+  i_uid a <> i_uid b -> by_time_uid a b = negb (by_time_uid b a).
+Proof. exact by_time_uid_total. Qed.
+Print Assumptions C11_by_time_uid_total.
+
+(* helpers.CompareTask is a strict weak order on every task set whose pod names
+   all carry a numeric index (k = true) and on every set where none does ... *)
+Theorem C11_compare_task_swo : forall k, swo_on (idx_kind k) compare_task.
+Proof. exact compare_task_swo. Qed.
+Print Assumptions C11_compare_task_swo.
+
+(* ... and NOT on mixed sets: a 3-cycle (candidate finding, docs/notes/C11.md) *)
+Theorem C11_compare_task_mixed_refuted :
+  exists a b c, compare_task a b = true /\ compare_task b c = true /\ compare_task c a = true.
+Proof. exact compare_task_mixed_refuted. Qed.
+Print Assumptions C11_compare_task_mixed_refuted.
+
+(* comparators of the shipped plugins (priority, gang, drf share, sla,
+   proportion) are valid on every set *)
+Theorem C11_plugin_comparators_valid : forall kind, valid_on everywhere (real_cmp kind).
+Proof. exact plugin_comparators_valid. Qed.
+Print Assumptions C11_plugin_comparators_valid.
+
+(* BuildVictimsPriorityQueue: two distinct victims are ordered exactly one way *)
+Theorem C11_victim_queue_order_total :
+  forall (task_ts job_ts queue_ts vq_ts : layout (item -> item -> Z))
+         (jobs : Z -> option vjob) (queues : Z -> option item) (pj : Z),
+  all_valid everywhere task_ts -> all_valid everywhere job_ts ->
+  all_valid everywhere queue_ts -> all_valid everywhere (force_en_all vq_ts) ->
+  (forall q1 q2 a b, q1 <> q2 -> queues q1 = Some a -> queues q2 = Some b -> i_uid a <> i_uid b) ->
+  forall l r b,
+    i_uid (vt_item l) <> i_uid (vt_item r) ->
+    victim_less task_ts job_ts queue_ts vq_ts jobs queues pj l r = Some b ->
+    victim_less task_ts job_ts queue_ts vq_ts jobs queues pj r l = Some (negb b).
+Proof. exact victim_queue_order_total. Qed.
+Print Assumptions C11_victim_queue_order_total.
+
+(* ---- util.PriorityQueue over container/heap ---- *)
+
+(* for EVERY less function: Push and Pop never fail and preserve the multiset *)
+Theorem C11_push_perm : forall (A : Type) (less : A -> A -> bool) (d : A) (l : list A) x,
+  exists l', push less l x = Some l' /\ Permutation l' (l ++ [x]).
+Proof. exact @push_perm. Qed.
+Print Assumptions C11_push_perm.
+
+Theorem C11_pop_perm : forall (A : Type) (less : A -> A -> bool) (d : A) (l : list A),
+  match pop less l with
+  | PopEmpty => l = []
+  | PopErr => False
+  | PopOk x rest => Permutation (x :: rest) l /\ x = nth 0 l d
+  end.
+Proof. exact @pop_perm. Qed.
+Print Assumptions C11_pop_perm.
+
+Theorem C11_run_multiset : forall (A : Type) (less : A -> A -> bool) (d : A) ops l outs,
+  run less ops = (Some l, outs) -> Permutation (popped outs ++ l) (pushed ops).
+Proof. exact @run_multiset. Qed.
+Print Assumptions C11_run_multiset.
+
+(* for a strict weak order: every history keeps the heap shape and never fails *)
+Theorem C11_run_good : forall (A : Type) (less : A -> A -> bool) (d : A),
+  (forall a b, less a b = true -> less b a = false) ->
+  (forall a b c, less a c = true -> less a b = true \/ less b c = true) ->
+  forall ops, good less d (run less ops).
+Proof. exact @run_good. Qed.
+Print Assumptions C11_run_good.
+
+(* ... and after ANY history Pop returns an element no queued element precedes *)
+Theorem C11_heap_pop_minimal : forall (A : Type) (less : A -> A -> bool) (d : A),
+  (forall a b, less a b = true -> less b a = false) ->
+  (forall a b c, less a c = true -> less a b = true \/ less b c = true) ->
+  forall ops l outs x rest,
+    run less ops = (Some l, outs) -> pop less l = PopOk x rest ->
+    (forall y, In y l -> less y x = false) /\ Permutation (x :: rest) l.
+Proof. exact @heap_pop_minimal. Qed.
+Print Assumptions C11_heap_pop_minimal.
+
+(* ---- non-vacuity ---- *)
+Example C11_victims_nonvacuous :
+  let ts := [[mkSlot true true (mkVote 1 [1; 2]); mkSlot true true (mkVote 1 [3])];
+             [mkSlot true false (mkVote 1 [9]); mkSlot true true (mkVote 0 [8]);
+              mkSlot true true (mkVote 1 [2; 3; 4]); mkSlot true true (mkVote (-1) [4; 2])]] in
+  victims_fixed ts = [2; 4] /\ In 2 (victims_fixed ts).
+Proof. exact victims_nonvacuous. Qed.
+
+Example C11_order_nonvacuous :
+  all_valid everywhere ex_layout /\
+  map (fun l => map (fun r => job_order_fn ex_layout l r) ex_items) ex_items =
+  [[false; false; false]; [true; false; false]; [true; true; false]].
+Proof. exact order_nonvacuous. Qed.
+
+Example C11_votes_nonvacuous :
+  vote_tiers [[mkSlot true true 0; mkSlot false true (-1)]; [mkSlot true true 1]; [mkSlot true true (-1)]] = true /\
+  vote_tiers [[mkSlot true true 0]; [mkSlot true true 1; mkSlot true true (-1)]] = false.
+Proof. exact votes_nonvacuous. Qed.
+
+Example C11_heap_nonvacuous :
+  (forall a b, Z.ltb a b = true -> Z.ltb b a = false) /\
+  (forall a b c, Z.ltb a c = true -> Z.ltb a b = true \/ Z.ltb b c = true) /\
+  run Z.ltb [OpPush 5; OpPush 3; OpPush 4; OpPop; OpPush 1; OpPop; OpPop; OpPop; OpPop] =
+  (Some [], [Some 3; Some 1; Some 4; Some 5; None]).
+Proof. exact heap_nonvacuous. Qed.
